@@ -22,6 +22,7 @@ import (
 	"runtime/pprof"
 	"sort"
 	"strings"
+	"sync/atomic"
 	"time"
 
 	"github.com/advancedclimatesystems/gonnx/verifsim"
@@ -421,7 +422,9 @@ func run(cfg workerCfg, noEvidence bool) int {
 			}
 			rprocs = append(rprocs, proc{cmd, se, pre})
 		}
+		var raceTimedOut int32
 		rtimer := time.AfterFunc(rb*3+5*time.Minute, func() {
+			atomic.StoreInt32(&raceTimedOut, 1)
 			for _, p := range rprocs {
 				p.cmd.Process.Kill()
 			}
@@ -437,6 +440,14 @@ func run(cfg workerCfg, noEvidence bool) int {
 						total.Violations = append(total.Violations, evid.Violation{Property: cfg.Prop, Signature: "process-crash", What: "free-running concurrent Runs killed the process: " + fatalLine(p.se.String()), Case: raw})
 						continue
 					}
+				}
+				if atomic.LoadInt32(&raceTimedOut) == 1 && strings.Contains(err.Error(), "killed") {
+					// The race tier is auxiliary: free-running goroutines under the race detector, outside the simulation and
+					// unable to raise a false alarm. A worker that the watchdog stopped (a loaded machine, one very slow
+					// world) leaves that tier incomplete; the deterministic simulation above has decided the property.
+					fmt.Fprintf(os.Stderr, "NOTE: race-tier worker %d was stopped by its watchdog; the auxiliary race tier is incomplete for this run\n", i)
+					total.Probe("race_tier_workers_stopped_by_watchdog")
+					continue
 				}
 				fmt.Fprintf(os.Stderr, "HARNESS-TROUBLE: race worker %d: %v\n%s\n", i, err, tail(p.se.String(), 3000))
 				trouble = true
